@@ -418,6 +418,10 @@ func (d *DataStore) prepareDataUpdateSet(dataOffset int, res ResultSet, columns 
 		case interface2int64(resRow[lastCheckResIdx]) != prep.DataRow.dataInt64[lastCheckDataIdx]:
 			// compare last check date and do a full update only if last check has changed
 			prep.FullUpdate = true
+		case prep.DataRow.checkChangedIntValues(dataOffset, resRow, columns):
+			// something else changed without a new check result, ex.: modified attributes or acknowledgements,
+			// update the strings and lists as well, otherwise the row would mix old and new values
+			prep.FullUpdate = true
 		}
 
 		// prepare deduped strings if required
